@@ -49,4 +49,49 @@ theorem C04_enable_births (s : St) (u : Nat) (dec : Dec) (x : Dev) (rest : List 
         .call id .dbirth (some x.name) (some ((s.seq + 1) % 256)) none false dc])] := by
   exact enable_births s u dec x rest hx hpc hq hh hreg hfl hon hb
 
+/-- **DDEATH on disable**: processing a disable request while the node is online and birthed and the
+device is birthed in the current node birth hands over exactly one DDEATH with the next sequence
+number (the counterpart of `C04_enable_births`) -/
+theorem C04_disable_deaths (s : St) (u : Nat) (dec : Dec) (x : Dev) (rest : List HR)
+    (hx : findUid u s.devs = some x) (hpc : x.pc = .idle) (hq : x.nsq = []) (hh : x.hq = .disable :: rest)
+    (hfl : x.flag = true) (hep : x.epoch = s.epoch) (hon : s.online = true) (hb : s.birthed = true) :
+    ∃ s' id dc, step s (.dev u) dec = [(s',
+        [.call id .ddeath (some x.name) (some ((s.seq + 1) % 256)) none false dc])] := by
+  simp only [step, stepDev, hx, hpc, hq, hh, devDeath, nextSeqIn, handOver]
+  simp [hfl, hep, hon, hb]
+  cases dec <;> simp [callRes]
+
+/-- **DBIRTH on an explicit device rebirth**: processing a rebirth request while the node is online
+and birthed and the device is enabled and registered hands over exactly one DBIRTH with the next
+sequence number, whether or not the device is birthed already -/
+theorem C04_rebirth_births (s : St) (u : Nat) (dec : Dec) (x : Dev) (rest : List HR)
+    (hx : findUid u s.devs = some x) (hpc : x.pc = .idle) (hq : x.nsq = []) (hh : x.hq = .rebirth :: rest)
+    (hen : x.enabled = true) (hreg : x.registered = true) (hon : s.online = true) (hb : s.birthed = true) :
+    ∃ s' id dc, step s (.dev u) dec = [(s', [.bDev x.name,
+        .call id .dbirth (some x.name) (some ((s.seq + 1) % 256)) none false dc])] := by
+  simp only [step, stepDev, hx, hpc, hq, hh, devBirth, nextSeqIn, handOver]
+  simp [hen, hreg, hon, hb]
+  cases dec <;> simp [callRes]
+
+/-- **No request through a handle is ever dropped**: an enable / disable / rebirth request for a
+device the handle refers to is appended to that device's request queue whatever the queue already
+holds (there is no bound on the number of requests waiting for a busy device task), nothing else
+changes and nothing is observed; the device task takes them from the front one at a time
+(`stepDev`), so they take effect in the order they were made. -/
+theorem C04_request_never_dropped (s : St) (d : Nat) (x : Dev) (hx : findDev d s.devs = some x) :
+    applyStim s (.enable d) = ({ s with devs := setDev { x with hq := x.hq ++ [.enable] } s.devs }, []) ∧
+    applyStim s (.disable d) = ({ s with devs := setDev { x with hq := x.hq ++ [.disable] } s.devs }, []) ∧
+    applyStim s (.drebirth d) = ({ s with devs := setDev { x with hq := x.hq ++ [.rebirth] } s.devs }, []) := by
+  simp [applyStim, hx]
+
+/-- non-vacuity of `C04_request_never_dropped` and of the queue discipline: 40 requests made while the
+device task is parked in its DBIRTH are all still queued, in order -/
+example :
+    let x0 : Dev := { uid := 0, name := 1, enabled := true, pc := .waitBirth 0 1 }
+    let s0 : St := { (init 0) with online := true, birthed := true, devs := [x0] }
+    let reqs : List Stim := (List.range 20).flatMap fun _ => [Stim.disable 1, Stim.enable 1]
+    let s := reqs.foldl (fun s r => (applyStim s r).1) s0
+    (s.devs.map (·.hq.length)) = [40] ∧ (s.devs.map (·.hq.take 3)) = [[.disable, .enable, .disable]] := by
+  decide +kernel
+
 end Srad.Eon
